@@ -106,7 +106,8 @@ class Gen:
                 return None
             return self.value(t[1], depth)
         if k == 'union':
-            members = [x for x in t[1:] if x != 'buf']
+            members = [x for x in t[1:]
+                       if x != 'buf' or 'bool' not in t[1:]]
             return self.value(rng.choice(members), depth)
         if k == 'cls':
             return self.instance(t[1], depth)
